@@ -648,6 +648,12 @@ def run(ck: Check) -> None:
     guard.campaign(ck, render_probe.evaluate, probe, render_probe.ASSUMED_BY_C10)
     guard.campaign(ck, tpl_campaign.campaign_lex_auto, 600 if quick else 6000)  # last: the older campaigns keep their random streams
     ck.search_hooks.append(search_bad_table_char)
+    # extra schema keys (keyword NAMES of Field(...) for pydantic v1, dict keys elsewhere): Python keywords, soft keywords, …
+    from . import c10_keys
+
+    ck.search_hooks.insert(0, c10_keys.search)
+    guard.campaign(ck, c10_keys.campaign_keys, quick)
+    guard.campaign(ck, c10_keys.campaign_sanitiser, 400 if quick else 6000)
     guard.campaign(ck, known_findings)
 
 
@@ -655,7 +661,11 @@ def replay(ck: Check, path: str) -> int:
     data = json.loads(open(path).read())
     inp = data.get("input") or {}
     camp = ck.campaign("replay")
-    if "slot" in inp:
+    if inp.get("slot") == "extra_key":
+        from . import c10_keys
+
+        c10_keys.replay_case(ck, camp, inp)
+    elif "slot" in inp:
         oracle_case(ck, camp, inp["slot"], inp["string"], inp["model"], inp.get("opts", {}), inp.get("formatters"))
     elif "key" in inp:
         lit = "'" + real_typed_dict_key(inp["key"]) + "'"
